@@ -74,7 +74,7 @@ PLAN = {
             B("c05b_seq_reclaim", "value type with destructor: push never drops; clear_with hands each value out once; nothing destroyed before/while handed out; each value destroyed exactly once afterwards; second clear destroys nothing",
               bound="n <= 2 pushes; sequential; epoch schedule = destructors run immediately", covers=2),
             B("c05b_reclaim_only_deferred", "RECLAMATION: clear_with over a chain of 33 quiesced blocks hands every detached block to the epoch guard (one full batch of 32 + the remainder) and frees none itself: with the epoch held back (defer_unchecked leaks) a reader pinned before the clear can still dereference the first, the 32nd and the last block",
-              bound="one designed chain (33 empty blocks); sequential; epoch never advances", covers=0, timeout=2400, mem_gb=40),
+              bound="one designed chain (33 empty blocks); sequential; epoch never advances; crossbeam's Shared::into_owned stubbed to 'assert!(false)' (with the epoch held back the real code never executes it)", covers=0, timeout=1200),
             B("c05b_straggler_clear", "state A (old block full, slot 63 claimed but unpublished, behind a fresh tail with k values): clear_with never hands a block out while a claimed slot is unpublished; after the straggler finishes it hands out the k tail values then ALL 64 of the old block in push order; bucket empty afterwards",
               bound="one designed state: k in {0,1}, old write in 64..=usize::MAX; straggler completes at the 1st or 2nd yield of the reader", covers=2),
             B("c05b_straggler_snapshot", "state A: is_empty false; data_with never hands a block out while a claimed slot is unpublished; hands out the k tail values then ALL 64 of the old block in push order; takes nothing",
